@@ -856,9 +856,16 @@ class Interp:
         if not isinstance(lam, ast.Lambda):
             raise Unsupported("forall/exists needs a lambda")
         vname = lam.args.args[0].arg
-        bound = z3.Int(self.ctx.fresh_name("q_" + vname))
+        bname = self.ctx.fresh_name("q_" + vname)
+        bound = z3.Int(bname)
         e2 = Env(env, {vname: VInt(bound)})
-        body = truthy(self.eval(lam.body, e2))
+        if not hasattr(self, "bound_names") or self.bound_names is None:
+            self.bound_names = set()
+        self.bound_names.add(bname)
+        try:
+            body = truthy(self.eval(lam.body, e2))
+        finally:
+            self.bound_names.discard(bname)
         rng = z3.And(as_int(lo) <= bound, bound < as_int(hi))
         if nm == "forall":
             return VBool(z3.ForAll([bound], z3.Implies(rng, body)))
